@@ -8,12 +8,15 @@
 From Coq Require Import List NArith Bool Arith.
 From SioV Require Import Base.Conc.
 From SioV Require Eio.PollQueue Eio.PollQueueProofs Sio.PacketQueue Sio.PacketQueueProofs.
+From SioV Require Eio.PollQueueSwap Eio.PollQueueSwapProofs.
 Import ListNotations.
 
 Module P := Eio.PollQueue.
 Module PP := Eio.PollQueueProofs.
 Module Q := Sio.PacketQueue.
 Module QP := Sio.PacketQueueProofs.
+Module W := Eio.PollQueueSwap.
+Module WP := Eio.PollQueueSwapProofs.
 
 (** * packetQueue (sender goroutine of a Socket.IO connection) *)
 
@@ -145,6 +148,52 @@ Theorem C19_poll_empty_answer_means_all_handed_out : forall s,
   P.preachable s ->
   forall pre c post, P.p_log s = pre ++ P.ERet c [] :: post -> P.handed_out pre = P.added pre.
 Proof. exact PP.empty_answer_means_all_handed_out. Qed.
+
+(** * Which queue a packet goes to: Send racing the transport swap (engine.io server socket) *)
+
+(** For the code as it is (Send holds transportMu.RLock across the transport write), over ALL
+    schedules of any number of senders, successive upgrades and peers: a transport that has been
+    discarded (no longer current, its drain into the new transport over) holds no packet - nothing
+    is ever added to a discarded transport's queue after its drain, so nothing is stranded where no
+    poll request, heartbeat or later packet would flush it. *)
+Theorem C19_swap_no_stranded : forall s t,
+  W.wreachable true s -> W.discarded s t -> W.w_queue s t = [].
+Proof. exact WP.no_stranded. Qed.
+
+(** A sender that has picked a transport still has the current one, no swap is in progress, and
+    the upgrade cannot take the lock before the packet is queued and the sender has released. *)
+Theorem C19_swap_send_targets_current : forall s i t p,
+  W.wreachable true s -> W.w_spc s i = W.SHave t p ->
+  t = W.w_cur s /\ W.w_upc s = W.UIdle /\ W.wstep true W.UAcquire s = None.
+Proof. exact WP.send_targets_current. Qed.
+
+(** Holding the lock across the write costs no liveness inside the socket: a sender holding it,
+    and an upgrade holding it, can always take their next step; a new sender waits only for an
+    upgrade in progress. *)
+Theorem C19_swap_no_deadlock : forall s,
+  (forall i t p, W.w_spc s i = W.SHave t p -> W.wstep true (W.WAdd i) s <> None) /\
+  (forall i, W.w_spc s i = W.SAdded -> W.wstep true (W.WRelease i) s <> None) /\
+  (W.w_upc s = W.ULocked -> W.wstep true W.USwap s <> None) /\
+  (forall o, W.w_upc s = W.USwapped o -> W.wstep true W.UDrain s <> None) /\
+  (W.w_upc s = W.UDrained -> W.wstep true W.URelease s <> None) /\
+  (forall i p, W.w_spc s i = W.SIdle -> W.w_wr s = false -> W.wstep true (W.WAcquire i p) s <> None).
+Proof. exact WP.swap_no_deadlock. Qed.
+
+(** The variant that releases the read lock before the write (`s.Transport().Send(p)`) violates
+    the property: sender picks transport 0, a complete upgrade overtakes it, packet 7 lands in the
+    discarded transport's queue and stays there whatever the current transport's peer takes.
+    (Replayed on the real socket by the swap suite: schedule N0 hold; U; R0.) *)
+Theorem C19_swap_unlocked_send_refuted :
+  exists s, exec_opt (W.wstep false) WP.stranding_schedule W.winit = Some s /\
+            W.discarded s 0 /\ W.w_queue s 0 = [7%N] /\ W.w_queue s (W.w_cur s) = [] /\
+            forall s', W.wstep false (W.WTake (W.w_cur s)) s = Some s' -> W.w_queue s' 0 = [7%N].
+Proof. exact WP.unlocked_send_strands_packet. Qed.
+
+(** ... and that schedule is not a run of the code as it is: the upgrade cannot take the lock. *)
+Theorem C19_swap_locked_send_blocks_upgrade :
+  exec_opt (W.wstep true) WP.stranding_schedule W.winit = None /\
+  exists s, exec_opt (W.wstep true) [W.WAcquire 0 7%N] W.winit = Some s /\ W.wstep true W.UAcquire s = None.
+Proof. exact WP.locked_send_blocks_that_schedule. Qed.
 
 (** * The original pollQueue (unbuffered ready, no re-check) violates the property *)
 
